@@ -322,7 +322,12 @@ func (s *Server) ListenPacket() (net.PacketConn, error) {
 		if err != nil {
 			return nil, err
 		}
-		return net.ListenUDP("udp", udpAddr)
+		pc, err := net.ListenUDP("udp", udpAddr)
+		if err != nil {
+			// not the nil *net.UDPConn: callers test the interface value
+			return nil, err
+		}
+		return pc, nil
 	}
 	return nil, nil
 }
